@@ -39,6 +39,9 @@ type osCase struct {
 	Addrs  []osAddr  `json:"addrs"`
 	Routes []osRoute `json:"routes"`
 	Index  int       `json:"index"`
+	// the first FailN dump requests of each kind fail with the system call error Errno (99 = every request fails)
+	Errno string `json:"errno,omitempty"`
+	FailN int    `json:"fail_n,omitempty"`
 }
 
 func osProp(k *verifkit.Kit) func(c osCase) error {
@@ -51,11 +54,24 @@ func osProp(k *verifkit.Kit) func(c osCase) error {
 		}
 		k.Record(c, flagged > 0 || len(c.Routes) > 1, fmt.Sprintf("addrs=%d", min(len(c.Addrs), 6)), fmt.Sprintf("routes=%d", min(len(c.Routes), 6)))
 		var gotReq []string
+		failed := map[string]int{}
+		fails := func(kind string) error {
+			if c.Errno == "" || failed[kind] >= c.FailN {
+				return nil
+			}
+			failed[kind]++
+			errno := map[string]unix.Errno{"EINTR": unix.EINTR, "EAGAIN": unix.EAGAIN, "ENODEV": unix.ENODEV, "EPERM": unix.EPERM, "ENOBUFS": unix.ENOBUFS}[c.Errno]
+			// as package netlink reports it: an *netlink.OpError around the errno
+			return &netlink.OpError{Op: "receive", Err: errno}
+		}
 		a := &addresser{execute: func(m rtnetlink.Message, family uint16, flags netlink.HeaderFlags) ([]rtnetlink.Message, error) {
 			var out []rtnetlink.Message
 			switch req := m.(type) {
 			case *rtnetlink.AddressMessage:
 				gotReq = append(gotReq, fmt.Sprintf("addr family=%d index=%d", req.Family, req.Index))
+				if err := fails("addr"); err != nil {
+					return nil, err
+				}
 				for _, x := range c.Addrs {
 					ip := netip.MustParseAddr(x.Addr)
 					out = append(out, &rtnetlink.AddressMessage{Family: unix.AF_INET6, PrefixLength: x.Bits, Index: req.Index,
@@ -64,6 +80,9 @@ func osProp(k *verifkit.Kit) func(c osCase) error {
 				}
 			case *rtnetlink.RouteMessage:
 				gotReq = append(gotReq, fmt.Sprintf("route family=%d oif=%d table=%d", req.Family, req.Attributes.OutIface, req.Attributes.Table))
+				if err := fails("route"); err != nil {
+					return nil, err
+				}
 				for _, x := range c.Routes {
 					ip := netip.MustParseAddr(x.Dst)
 					rm := &rtnetlink.RouteMessage{Family: unix.AF_INET6, DstLength: x.Bits,
@@ -78,6 +97,23 @@ func osProp(k *verifkit.Kit) func(c osCase) error {
 			return out, nil
 		}}
 		ips, err := a.AddressesByIndex(c.Index)
+		persistent := c.Errno != "" && c.FailN >= 99
+		if persistent {
+			// a dump that keeps failing must surface as an error (the wildcards then fail RA generation instead of
+			// advertising nothing); how often it is retried is the code's business
+			if err == nil {
+				return verifkit.Violf("OS/dump-failure-swallowed", "every address dump fails with %s, yet AddressesByIndex returned %v and no error (%d requests)", c.Errno, ips, len(gotReq))
+			}
+			n := len(gotReq)
+			rts, err := a.routesByIndex(c.Index)
+			if err == nil {
+				return verifkit.Violf("OS/dump-failure-swallowed", "every route dump fails with %s, yet routesByIndex returned %v and no error (%d requests)", c.Errno, rts, len(gotReq)-n)
+			}
+			return nil
+		}
+		if err != nil && c.Errno != "" {
+			return nil // a transient failure may be reported (the code as it stands does not retry) ...
+		}
 		if err != nil {
 			return verifkit.Violf("OS/addresses-error", "AddressesByIndex: %v", err)
 		}
@@ -99,6 +135,9 @@ func osProp(k *verifkit.Kit) func(c osCase) error {
 			}
 		}
 		rts, err := a.routesByIndex(c.Index)
+		if err != nil && c.Errno != "" {
+			return nil
+		}
 		if err != nil {
 			return verifkit.Violf("OS/routes-error", "routesByIndex: %v", err)
 		}
@@ -115,6 +154,16 @@ func osProp(k *verifkit.Kit) func(c osCase) error {
 			}
 		}
 		wantReq := []string{fmt.Sprintf("addr family=%d index=%d", unix.AF_INET6, c.Index), fmt.Sprintf("route family=%d oif=%d table=%d", unix.AF_INET6, c.Index, unix.RT_TABLE_MAIN)}
+		if c.Errno != "" {
+			// ... or overcome by asking again: then the same two requests, possibly repeated
+			var dedup []string
+			for _, r := range gotReq {
+				if len(dedup) == 0 || dedup[len(dedup)-1] != r {
+					dedup = append(dedup, r)
+				}
+			}
+			gotReq = dedup
+		}
 		if fmt.Sprint(gotReq) != fmt.Sprint(wantReq) {
 			return verifkit.Violf("OS/request", "requests sent to the kernel: want %v got %v", wantReq, gotReq)
 		}
@@ -140,6 +189,10 @@ func osGen(t *rapid.T) osCase {
 	for i, n := 0, rapid.IntRange(0, 6).Draw(t, "nroutes"); i < n; i++ {
 		p := netip.PrefixFrom(netip.MustParseAddr(rapid.SampledFrom([]string{"2001:db8::", "2001:db8:0:1::", "fd00::", "::"}).Draw(t, "dst")), rapid.SampledFrom([]int{0, 32, 48, 64, 128}).Draw(t, "rbits")).Masked()
 		c.Routes = append(c.Routes, osRoute{Dst: p.Addr().String(), Bits: uint8(p.Bits()), Pref: rapid.SampledFrom([]int{-1, 0, 1, 3}).Draw(t, "rpref"), OutIf: uint32(c.Index)})
+	}
+	if rapid.IntRange(0, 3).Draw(t, "dumpfails") == 0 {
+		c.Errno = rapid.SampledFrom([]string{"EINTR", "EAGAIN", "ENODEV", "EPERM", "ENOBUFS"}).Draw(t, "errno")
+		c.FailN = rapid.SampledFrom([]int{1, 2, 3, 5, 99, 99}).Draw(t, "failn")
 	}
 	return c
 }
